@@ -41,7 +41,7 @@ def sessions_for(exe, tier, seed):
 
 
 def run(tier, seed):
-    chk = vlib.Check("C09", tier, seed, level="partial")
+    chk = vlib.Check("C09", tier, seed)
     chk.cov["trusted_base"] = TRUSTED
     chk.assumptions = [
         "completion bound after healing = MAX_RTO x (data / smallest MSS + 8) + 15 s (see checks/C10.py c09_bound): the code "
